@@ -259,6 +259,35 @@ def h_switch_err(ctx, cuts, ncuts=0):
   ctx.witness('done')
 
 
+def h_burst(ctx, side, count):
+  """one read that completes a long run of small messages (a burst of barrier / echo requests): every one of them is delivered by that read -
+  nothing is left waiting in the buffer for bytes that may never come"""
+  core = env.get_core()
+  of01 = ctx.pox('pox.openflow.of_01'); iow = ctx.pox('pox.lib.ioworker'); sw = ctx.pox('pox.datapaths.switch')
+  xs = [ctx.int('xid%d' % i, 0, 0xffffffff) for i in range(3)]
+  def xid(i): return xs[0] if i == 0 else xs[1] if i == count // 2 else xs[2] if i == count - 1 else 0x1000 + i
+  msgs = [hdr(18 if side == 'switch' else 19, 8, xid(i)) if i % 3 else hdr(2, 10, xid(i)) + [i & 255, 7] for i in range(count)]
+  stream = env.tobytes(ctx, [x for m in msgs for x in m])
+  delivered = []
+  if side == 'switch':
+    w = iow.IOWorker(); w.socket = env.FakeSocket(eof=False)
+    c = sw.OFConnection(w)
+    c.set_message_handler(lambda con, msg: delivered.append((msg.header_type, msg.xid)))
+    w._push_receive_data(stream)
+    ctx.check('residual empty', len(w.receive_buf) == 0)
+  else:
+    of01.deferredSender = Dummy()
+    sock = env.FakeSocket(eof=False); con = of01.Connection(sock)
+    con.handlers = [(lambda c_, msg, t=t: delivered.append((t, msg.xid))) for t in range(len(con.handlers))]
+    sock.feed(stream); rounds = 0
+    while sock.chunks and rounds < 10:
+      ctx.check('read ok', con.read() is True); rounds += 1
+    ctx.check('residual empty', len(con.buf) == 0)
+  ctx.check('every message of the burst was delivered', len(delivered) == count)
+  ctx.check('in order, with their xids', all(d[0] == m[1] and bool(d[1] == xid(i)) for i, (d, m) in enumerate(zip(delivered, msgs))))
+  ctx.witness('done')
+
+
 def h_live(ctx, tail, cuts, ncuts=0):
   """Controller side with its real handler tables (the handshake handlers replace themselves by the default ones when the barrier reply
   arrives): hello and features reply first, then one stream - the awaited barrier reply followed by asynchronous messages - cut at
@@ -352,6 +381,8 @@ def obligations(tier):
     if thorough or tail == ['packet_in', 'barrier']: live.append(dict(tail=tail, cuts='sym', ncuts=2))
     if thorough: live.append(dict(tail=tail, cuts='dribble'))
   return [
+    Obligation('O7_burst', h_burst, [dict(side=sd, count=n) for sd in ('switch', 'controller') for n in ((150, 300) if not thorough else (129, 150, 300, 900))], witnesses=('done',), max_decisions=50000,
+               desc='a single read completing 150-300 (thorough 900) small messages delivers all of them'),
     Obligation('O6_switch_errors', h_switch_err, [dict(cuts='sym', ncuts=1), dict(cuts='dribble'), dict(cuts=[])] + ([dict(cuts='sym', ncuts=2)] if thorough else []), witnesses=('done',), max_decisions=50000, conc_cap=400,
                desc='switch side: an unsupported type and a failing handler in the middle of a stream, every segmentation'),
     Obligation('O5_live_handlers', h_live, live, witnesses=('done',), max_decisions=50000, conc_cap=400,
